@@ -33,6 +33,9 @@ type resultData struct {
 	response       *astjson.Value
 	responsePath   ast.Path
 	entityIndexMap entityIndexMap
+	// entityCount is the number of representations in the request; the merged
+	// _entities array always has exactly this many items.
+	entityCount int
 }
 
 // Verify DataSource implements the resolve.DataSource interface
@@ -182,6 +185,7 @@ func (d *DataSource) Load(ctx context.Context, headers http.Header, input []byte
 					}
 
 					results[index].entityIndexMap = newEntityIndexMap(serviceCall.RPC.RequestedEntityType, representations)
+					results[index].entityCount = len(representations)
 				}
 
 				return nil
